@@ -24,7 +24,7 @@ RULE = (
 ASSUMPTIONS = ["re-evaluation of a stored circuit (compile, trace out emitters, metric) is deterministic for the forced measurement settings; "
                "for the probabilistic setting the stored score is only required to be reproducible with the seed",
                "the fresh-interpreter comparison uses graphiq from the same working tree"]
-REQUIRED_CLASSES = {"runs": ["hybrid", "evolutionary", "selection", "adaptive", "n_hof>n_pop", "hof_changed_twice"]}
+REQUIRED_CLASSES = {"runs": ["hybrid", "evolutionary", "selection", "adaptive", "n_hof>n_pop", "hof_changed_twice", "initial_circuit_given"]}
 
 
 def build_solver(case):
@@ -50,7 +50,15 @@ def build_solver(case):
     if case["solver"] == "hybrid":
         solver = HybridEvolutionarySolver(target=target, metric=metric, compiler=comp, solver_setting=setting)
     else:
-        solver = EvolutionarySolver(target=target, metric=metric, compiler=comp, n_emitter=case.get("ne", 1), n_photon=n,
+        init_circ = None
+        if case.get("init_circuit"):
+            # the search starts from a circuit handed to the constructor (the solver's own initialisation circuit, built by a throw-away solver)
+            tmp = EvolutionarySolver(target=target, metric=metric, compiler=comp, n_emitter=case.get("ne", 1), n_photon=n)
+            np.random.seed(case["seed"] % (2**32))
+            ea = tmp.get_emission_assignment(n, case.get("ne", 1))
+            ma = tmp.get_measurement_assignment(n, case.get("ne", 1))
+            init_circ = tmp.initialization(ea, ma)
+        solver = EvolutionarySolver(target=target, metric=metric, compiler=comp, circuit=init_circ, n_emitter=case.get("ne", 1), n_photon=n,
                                     solver_setting=setting)
     return solver, comp, metric
 
@@ -92,6 +100,8 @@ def check_run(case, sub="runs"):
         cl.append("adaptive")
     if case["n_hof"] > case["n_pop"]:
         cl.append("n_hof>n_pop")
+    if case.get("init_circuit") and case["solver"] == "evolutionary":
+        cl.append("initial_circuit_given")
     solver, comp, metric, history, pops = guarded(sub, icls, run_once, case)
     sig1 = hof_signature(solver)
     # (b) ordered, placeholders only at the tail
@@ -184,6 +194,7 @@ def st_case(draw, sub=False):
         "selection": draw(st.booleans()), "k": draw(st.integers(0, 3)), "adaptive": draw(st.booleans()),
         "compiler": draw(st.sampled_from(["stab", "stab", "stab", "dm"])) if n <= 3 else "stab",
         "det": draw(st.sampled_from([0, 1, 1, "probabilistic"])), "seed": draw(st.integers(0, 10**6)),
+        "init_circuit": draw(st.integers(0, 3)) == 0,
     }
     if sub:
         c["compiler"] = "stab"
